@@ -39,10 +39,10 @@ func init() {
 	core.Register(&core.Prop{
 		ID:    "C16",
 		Level: "exploration",
-		Rule: "case = sketch reached by a seeded history (both variants, all 5 store kinds, both signs), (40% with live companions: copies that stay in use, are reweighted on their own and merged with the sketch), then Reweight(w) for dyadic-budgeted w in {a*2^k}: <1, =1, >1; oracle: every bin, the zero bucket and the count equal the model scaled by w exactly, exact sum within the bound, exact min/max bitwise unchanged, and the whole observation equals that of a second real sketch built by adding the same items with weights*w; " +
+		Rule: "case = sketch reached by a seeded history (both variants, all 5 store kinds, both signs), (40% with live companions: copies that stay in use, are reweighted on their own and merged with the sketch), then Reweight(w) for dyadic-budgeted w in {a*2^k}: <1, =1, >1; oracle: every bin, the zero bucket and the count equal the model scaled by w exactly, exact sum within the bound, exact min/max bitwise unchanged, and the whole observation equals that of a second real sketch built by adding the same items with weights*w - right after the call and again after both absorbed the same few further additions; " +
 			"the hook shows paginated stores holding both buffered and paged indexes at the time of the call. Non-trivial = both sides non-empty and w != 1; distinct = hash of the history and w.",
 		Cases:     core.Scale(80000, 2000000),
-		Mandatory: []string{"oracle.reweight_checks", "oracle.rebuilt_twin_checks", "reweight.lt1", "reweight.gt1", "reweight.eq1", "reweight.near_one", "layout.reweight_with_buffer_and_pages", "reweight.both_sides", "histories_with_live_companions", "oracle.companion_checks", "event.ChangeMapping"},
+		Mandatory: []string{"oracle.reweight_checks", "oracle.rebuilt_twin_checks", "reweight.lt1", "reweight.gt1", "reweight.eq1", "reweight.near_one", "layout.reweight_with_buffer_and_pages", "reweight.both_sides", "histories_with_live_companions", "oracle.companion_checks", "event.ChangeMapping", "oracle.continued_after_reweight"},
 		Run:       runC16,
 	})
 }
@@ -758,6 +758,11 @@ func runC16(c *core.Ctx) {
 	if (lp.Kind == "paginated" && lp.BufferLen > 0 && lp.AllocatedPages > 0) || (ln.Kind == "paginated" && ln.BufferLen > 0 && ln.AllocatedPages > 0) {
 		c.Count("layout.reweight_with_buffer_and_pages", 1)
 	}
+	if r.P(0.7) {
+		// queried before the call (reads reorganise stores; what they leave behind must not outlive the reweighting)
+		c.Guard("query before Reweight", func() { mon.Observe(st.s, nil) })
+		c.Count("reweight.after_a_query", 1)
+	}
 	if !st.apply(skOp{kind: opReweight, w: f}) {
 		return
 	}
@@ -807,6 +812,43 @@ func runC16(c *core.Ctx) {
 	got.HasSum, want.HasSum = false, false
 	if d := want.Diff(got); d != "" {
 		c.Failf("reweight.differs_from_scaled_adds", "after Reweight(%v) the sketch differs from one built by adding the same items with scaled weights (built vs reweighted): %s", f, d)
+	}
+	// "the content of a sketch to which the same values had been added with scaled weights" also means behaving
+	// like that sketch from now on: both absorb the same further additions (a few, so that they stay among what
+	// a store still holds as unit entries; often in descending order) and are compared again
+	if r.P(0.6) && !c.Failed() {
+		for k := range h.weights {
+			h.weights[k] = 0
+		}
+		h.weights[opAdd], h.weights[opAddW] = 8, 1
+		more := h.gen(r.Range(1, 10))
+		if r.Bool() {
+			sort.Slice(more, func(i, j int) bool { return more[i].v > more[j].v })
+		}
+		okTwin := true
+		for _, op := range more {
+			c.SigF(op.v)
+			c.SigF(op.w)
+			if !st.apply(op) {
+				return
+			}
+			op := op
+			c.Guard("twin", func() {
+				if err := twin.I().AddWithCount(op.v, op.w); err != nil {
+					okTwin = false
+				}
+			})
+		}
+		if c.Failed() || !okTwin {
+			return
+		}
+		c.Count("oracle.continued_after_reweight", 1)
+		got := mon.Observe(st.s, nil)
+		want := mon.Observe(twin, nil)
+		got.HasSum, want.HasSum = false, false
+		if d := want.Diff(got); d != "" {
+			c.Failf("reweight.differs_from_scaled_adds_later", "after Reweight(%v) and %d further additions the sketch differs from one built by adding everything with scaled weights (built vs reweighted): %s", f, len(more), d)
+		}
 	}
 	if both && f != 1 {
 		c.NonTrivial()
